@@ -7,7 +7,7 @@ from .rt import *
 from .rt import _Return, _Break, _Continue
 from .values import *
 
-_ABSENT = object()
+_ABSENT = ABSENT
 
 CMPOPS = {
     ast.Eq: "==", ast.NotEq: "!=", ast.Lt: "<", ast.LtE: "<=", ast.Gt: ">", ast.GtE: ">=",
@@ -886,6 +886,8 @@ class OpsMixin:
 
     def is_same(self, a, b):
         dyn = (Sym, SymAny, Unknown, SymStr)
+        if isinstance(a, External) and isinstance(b, External) and a is not b and (getattr(a, "is_exc_class", False) or getattr(b, "is_exc_class", False)):
+            return a.name == b.name          # the class of an exception the binding raised, named twice: one class
         if a is None or b is None:
             other = b if a is None else a
             if other is None:
@@ -908,6 +910,16 @@ class OpsMixin:
 
     def contains(self, container, item, node, frame):
         item = norm_int(item)
+        if isinstance(container, Instance) and isinstance(container.cls, ClassVal):
+            cf, cowner = container.cls.lookup("__contains__")
+            if isinstance(cf, FuncVal):              # the class says what `in` means
+                return self.truth(self.call_function(cf, [container, item], {}, node, frame), node, frame)
+            itf, iowner = container.cls.lookup("__iter__")
+            if isinstance(itf, FuncVal):
+                items = self.iterate(self.call_function(itf, [container], {}, node, frame), node, frame)
+                if items is None:
+                    raise AnalysisError("unmodelled-builtin", "`in` over an object whose __iter__ the analysis cannot lay out at %s" % frame.where(node))
+                return self.contains(list(items), item, node, frame)
         if isinstance(container, ChainMapVal):
             for m in container.maps:
                 if self.contains(m, item, node, frame):
